@@ -36,7 +36,7 @@ package atree
 //@ func (e *hkeyElements) Split() (l, r, err)  serves C02 C05 C06
 //@   requires plainHk(e)
 //@   assume notNested(e) because "frame assumption F: a list is not nested inside its own elements"
-//@   requires e.size + 18 > maxThreshold && e.size + 18 <= maxThreshold + maxInlineMapElementSize + 8
+//@   requires e.size + 18 > maxThreshold && e.size + 18 <= maxThreshold + maxInlineMapElementSize + 8 + 16
 //@   ensures err == nil && l == e && is(r, *hkeyElements) && fresh(as(r, *hkeyElements))
 //@   ensures[C02] len(e.hkeys) + len(as(r, *hkeyElements).hkeys) == len(old(e.hkeys)) &&
 //@        (forall k :: 0 <= k && k < len(e.hkeys) ==> e.hkeys[k] == old(e.hkeys)[k] && e.elems[k] == old(e.elems)[k]) &&
@@ -175,7 +175,7 @@ package atree
 //@   pure
 
 //@ func (m *MapDataSlab) Split(storage) (left, right, err)  serves C02 C05 C06 C09
-//@   requires wfMDS(m) && storage != nil && m.header.size > maxThreshold && m.header.size <= maxThreshold + maxInlineMapElementSize + 8
+//@   requires wfMDS(m) && storage != nil && m.header.size > maxThreshold && m.header.size <= maxThreshold + maxInlineMapElementSize + 8 + 16
 //@   assume notNested(mdsHk(m)) && inSub(m, m.elements) because "frame assumption F: a list is not nested inside its own elements; the element list belongs to the subtree of its leaf"
 //@   ensures err != nil ==> categorised(err)
 //@   ensures err == nil ==> left == m && is(right, *MapDataSlab) && fresh(as(right, *MapDataSlab)) && mdsPlain(m) && mdsPlain(as(right, *MapDataSlab))
@@ -190,7 +190,9 @@ package atree
 //@   ensures[C09] err == nil ==> m.header.slabID == old(m.header.slabID) && as(right, *MapDataSlab).header.slabID.address == old(m.header.slabID.address) &&
 //@        as(right, *MapDataSlab).header.slabID != SlabIDUndefined && sto[as(right, *MapDataSlab).header.slabID] == nil &&
 //@        as(right, *MapDataSlab).next == old(m.next) && m.next == as(right, *MapDataSlab).header.slabID
-//@   modifies m.elements, m.header, m.next, hkeyElements.*@inSub(m), singleElements.*@inSub(m), ghost.touched, alloc
+//@   # the identifier of the new slab was not handed out before (so it differs from identifiers generated earlier but not stored yet)
+//@   ensures[C09] err == nil ==> !has(old(issued), as(right, *MapDataSlab).header.slabID) && has(issued, as(right, *MapDataSlab).header.slabID) && (forall id SlabID :: has(old(issued), id) ==> has(issued, id))
+//@   modifies m.elements, m.header, m.next, hkeyElements.*@inSub(m), singleElements.*@inSub(m), ghost.touched, alloc, ghost.issued
 
 //@ func (m *MapDataSlab) Merge(slab) (err)  serves C02 C05 C06 C09
 //@   requires is(slab, *MapDataSlab) && m != as(slab, *MapDataSlab) && wfMDS(m) && wfMDS(as(slab, *MapDataSlab)) && mdsHk(m) != mdsHk(as(slab, *MapDataSlab))
@@ -260,12 +262,12 @@ package atree
 //@   ensures[C02] err == nil ==> len(mdsHk(m).hkeys) >= 1 && m.header.firstKey == ite(hkey < old(m.header.firstKey) || old(len(mdsHk(m).hkeys)) == 0, hkey, old(m.header.firstKey))
 //@   ensures[C02 C03] err == nil && !m.inlined ==> has(stored, m) && sto[m.header.slabID] == m
 //@   ensures[C09] stoFrameMDS(m, valueRoot(key), valueRoot(value))
-//@   ensures[C18] err != nil ==> m.elements == old(m.elements) && m.header.slabID == old(m.header.slabID)
+//@   ensures[C18] err != nil ==> m.elements == old(m.elements) && m.header.slabID == old(m.header.slabID) && categorised(err)
 //@   # packaged: a plain first-level leaf stays a plain leaf (possibly over the size limit, which the parent repairs by splitting it)
 //@   ensures[C05 C06] err == nil && level == 0 && old(wfMDS(m)) ==> wfMDS(m)
 //@   ensures[C05] err == nil ==> m.header.size >= mdsPrefix(m) + 16
 //@   modifies m.header, hkeyElements.*@inSub(m), singleElements.*@inSub(m), singleElement.*@inSub(m), inlineCollisionGroup.*@inSub(m), externalCollisionGroup.*@inSub(m),
-//@        MapDataSlab.*@inSub(m), ghost.refusals, ghost.sto, ghost.stored, ghost.touched, alloc,
+//@        MapDataSlab.*@inSub(m), ghost.refusals, ghost.sto, ghost.issued, ghost.stored, ghost.touched, alloc,
 //@        as(valueRoot(key), *ArrayDataSlab).header, as(valueRoot(key), *ArrayDataSlab).inlined, as(valueRoot(key), *MapDataSlab).header, as(valueRoot(key), *MapDataSlab).inlined,
 //@        as(valueRoot(value), *ArrayDataSlab).header, as(valueRoot(value), *ArrayDataSlab).inlined, as(valueRoot(value), *MapDataSlab).header, as(valueRoot(value), *MapDataSlab).inlined
 
@@ -280,7 +282,48 @@ package atree
 //@   ensures[C02] err == nil ==> (len(mdsHk(m).hkeys) >= 1 ==> m.header.firstKey >= old(m.header.firstKey)) && (len(mdsHk(m).hkeys) == 0 ==> m.header.firstKey == 0)
 //@   ensures[C02 C03] err == nil && !m.inlined ==> has(stored, m) && sto[m.header.slabID] == m
 //@   ensures[C09] stoFrameMDS(m, nil, nil)
-//@   ensures[C18] err != nil ==> m.elements == old(m.elements) && m.header.slabID == old(m.header.slabID)
+//@   ensures[C18] err != nil ==> m.elements == old(m.elements) && m.header.slabID == old(m.header.slabID) && categorised(err)
 //@   ensures[C05 C06] err == nil && old(wfMDS(m)) ==> wfMDS(m)
 //@   modifies m.header, hkeyElements.*@inSub(m), singleElements.*@inSub(m), singleElement.*@inSub(m), inlineCollisionGroup.*@inSub(m), externalCollisionGroup.*@inSub(m),
-//@        MapDataSlab.*@inSub(m), ghost.sto, ghost.stored, ghost.touched, alloc
+//@        MapDataSlab.*@inSub(m), ghost.sto, ghost.issued, ghost.stored, ghost.touched, alloc
+
+//@ # ---------------------------------------------------------------- map.go: the root after a slab-level operation (C02 C05 C06 C09)
+
+//@ # an over-full root as OrderedMap.set / remove find it after the slab-level operation (tree invariant at the root; composition)
+//@ pred mapRootOverfull(m *OrderedMap) = isMapSlab(m.root) && sto[mhdrOf(m.root).slabID] == m.root && mhdrOf(m.root).slabID != SlabIDUndefined && has(issued, mhdrOf(m.root).slabID) &&
+//@      (is(m.root, *MapDataSlab) ==> as(m.root, *MapDataSlab).elements != nil && is(as(m.root, *MapDataSlab).elements, *hkeyElements) &&
+//@           plainHk(mdsHk(as(m.root, *MapDataSlab))) && notNested(mdsHk(as(m.root, *MapDataSlab))) && inSub(m.root, as(m.root, *MapDataSlab).elements) &&
+//@           !as(m.root, *MapDataSlab).inlined && as(m.root, *MapDataSlab).extraData != nil && !as(m.root, *MapDataSlab).anySize && mdsHdrG(as(m.root, *MapDataSlab)) &&
+//@           as(m.root, *MapDataSlab).header.size > maxThreshold && as(m.root, *MapDataSlab).header.size <= maxThreshold + maxInlineMapElementSize + 8) &&
+//@      (is(m.root, *MapMetaDataSlab) ==> wfMM(as(m.root, *MapMetaDataSlab)) && as(m.root, *MapMetaDataSlab).extraData != nil &&
+//@           as(m.root, *MapMetaDataSlab).header.size > maxThreshold && as(m.root, *MapMetaDataSlab).header.size <= maxThreshold + 18)
+
+//@ func (m *OrderedMap) splitRoot() (err)  serves C02 C03 C05 C06 C09
+//@   requires m.Storage != nil && m.root != nil
+//@   assume mapRootOverfull(m) because "tree invariant at the root (composition): the root is a well-formed over-full leaf or index slab stored under its identifier"
+//@   ensures err != nil ==> categorised(err)
+//@   ensures[C02] err == nil ==> is(m.root, *MapMetaDataSlab) && fresh(as(m.root, *MapMetaDataSlab)) && mhdrOf(m.root).slabID == old(mhdrOf(m.root).slabID)
+//@   ensures[C05] err == nil ==> len(as(m.root, *MapMetaDataSlab).childrenHeaders) == 2 && as(m.root, *MapMetaDataSlab).header.size == 48 &&
+//@        mhdrBand(as(m.root, *MapMetaDataSlab).childrenHeaders[0]) && mhdrBand(as(m.root, *MapMetaDataSlab).childrenHeaders[1])
+//@   ensures[C02] err == nil ==> as(m.root, *MapMetaDataSlab).childrenHeaders[0].firstKey < as(m.root, *MapMetaDataSlab).childrenHeaders[1].firstKey &&
+//@        as(m.root, *MapMetaDataSlab).header.firstKey == as(m.root, *MapMetaDataSlab).childrenHeaders[0].firstKey
+//@   ensures[C06] err == nil ==> as(m.root, *MapMetaDataSlab).extraData == old(ite(is(m.root, *MapDataSlab), as(m.root, *MapDataSlab).extraData, as(m.root, *MapMetaDataSlab).extraData))
+//@   ensures[C09] err == nil ==> sto[as(m.root, *MapMetaDataSlab).header.slabID] == m.root && as(m.root, *MapMetaDataSlab).header.slabID != SlabIDUndefined
+//@   ensures[C09] err == nil ==> mDistinct(as(m.root, *MapMetaDataSlab))
+//@   ensures[C09] err == nil ==> mAgree(as(m.root, *MapMetaDataSlab))
+//@   ensures[C02 C03] err == nil ==> has(stored, m.root) && has(stored, sto[as(m.root, *MapMetaDataSlab).childrenHeaders[0].slabID]) && has(stored, sto[as(m.root, *MapMetaDataSlab).childrenHeaders[1].slabID])
+//@   modifies m.root, MapDataSlab.elements, MapDataSlab.header, MapDataSlab.next, MapDataSlab.extraData, hkeyElements.*, singleElements.*,
+//@        MapMetaDataSlab.childrenHeaders, MapMetaDataSlab.header, MapMetaDataSlab.extraData, ghost.sto, ghost.issued, ghost.stored, ghost.touched, alloc
+
+//@ func (m *OrderedMap) promoteChildAsNewRoot(childID) (err)  serves C02 C03 C05 C06 C09
+//@   requires m.Storage != nil && is(m.root, *MapMetaDataSlab) && isMapSlab(sto[childID]) && sto[childID] != m.root && childID != mhdrOf(m.root).slabID &&
+//@        mhdrOf(sto[childID]).slabID == childID && as(m.root, *MapMetaDataSlab).extraData != nil
+//@   requires is(sto[childID], *MapDataSlab) ==> wfMDS(as(sto[childID], *MapDataSlab))
+//@   ensures err != nil ==> categorised(err)
+//@   ensures[C02] err == nil ==> m.root == old(sto[childID]) && mhdrOf(m.root).slabID == old(mhdrOf(m.root).slabID) && mhdrOf(m.root).firstKey == old(mhdrOf(sto[childID]).firstKey)
+//@   ensures[C06] err == nil && is(m.root, *MapDataSlab) ==> mdsHdrG(as(m.root, *MapDataSlab)) && as(m.root, *MapDataSlab).header.size == old(mhdrOf(sto[childID]).size) - 16 &&
+//@        as(m.root, *MapDataSlab).extraData == old(as(m.root, *MapMetaDataSlab).extraData) && !as(m.root, *MapDataSlab).inlined
+//@   ensures[C06] err == nil && is(m.root, *MapMetaDataSlab) ==> as(m.root, *MapMetaDataSlab).extraData == old(as(m.root, *MapMetaDataSlab).extraData)
+//@   ensures[C09] err == nil ==> sto[childID] == nil && sto[mhdrOf(m.root).slabID] == m.root
+//@   ensures[C02 C03] err == nil ==> has(stored, m.root)
+//@   modifies m.root, MapDataSlab.header, MapDataSlab.extraData, MapMetaDataSlab.header, MapMetaDataSlab.extraData, ghost.sto, ghost.issued, ghost.stored, ghost.touched, alloc
